@@ -519,7 +519,9 @@ def switch_sig(c, status):
     def it(k, x):
         if k is None: return "none"
         if k == "default": return "default"
-        return x[1][0] if x[0] == "c" else "%s...%s" % (x[1][0], x[2][0])
+        def cls(b):         # value class: the root causes seen so far depend only on whether a label fits in int
+            return "int" if -(1 << 31) <= b[1] < (1 << 31) else "wide"
+        return "case:" + cls(x[1]) if x[0] == "c" else "range:%s...%s" % (cls(x[1]), cls(x[2]))
     secs = c.sections()
     if status[0] == "R":
         return "C03|switch|%s|%s|rejected:%s:%s" % (c.ty[0], ",".join(it(k, x) for k, x in secs), status[1], status[2])
